@@ -155,6 +155,37 @@ def run(model, rep, tier):
         nexp += _report_exps(rep, mod, q, w)
         # degree of the rate expressions
         _degrees(rep, mod, q, fn)
+    # ---- energy factors in the derivative block of Interstitial.diffusivity
+    rep.rule('energy-factors-class-zero', 'an additive energy expression that multiplies a rate is a difference of energies (class zero)')
+    for q in ('Interstitial.diffusivity',):
+        mod = model.mod('OnsagerCalc')
+        fn = model.func('OnsagerCalc', q)
+        w = Walker(SINGLE, 1)
+        w.block(fn.body)
+        nfac = 0
+        seen = set()
+        for n in walk_local(fn):
+            if not (isinstance(n, ast.BinOp) and isinstance(n.op, ast.Mult)):
+                continue
+            for side, other in ((n.left, n.right), (n.right, n.left)):
+                if isinstance(other, ast.Constant):
+                    continue      # a numerical coefficient inside a larger linear form
+                if isinstance(side, ast.BinOp) and isinstance(side.op, (ast.Add, ast.Sub)) and id(side) not in seen:
+                    seen.add(id(side))
+                    c = w._cls(side)
+                    if c is None:
+                        continue
+                    # only expressions that involve an energy at all
+                    if not any(w.ev.cls(x) not in (None, w.ev.zero) for x in ast.walk(side) if isinstance(x, (ast.Name, ast.Subscript))):
+                        continue
+                    nfac += 1
+                    ok = all(x == 0 for x in c)
+                    rep.ob('energy-factors-class-zero', mod, side, '%s: factor (%s) has class %s' % (q, unparse(side)[:60], _fmt(c)), ok,
+                           '' if ok else 'the factor moves when every site and transition-state energy is shifted by the same constant, so '
+                           'the derivative output changes under a shift that leaves all rates unchanged (one term is referred to the '
+                           'lowest site energy, the other is absolute)', engine='balance', qual=q)
+        if nfac == 0:
+            rep.undecided('%s: no energy factor of a rate was located' % q)
     # ---- vacancy-mediated
     ci = model.cls('OnsagerCalc', 'VacancyMediated')
     for name in ('_symmetricandescaperates', 'Lij'):
